@@ -51,6 +51,7 @@ def gen_conv(rng, ver, tier):
     if rng.random() < 0.4:
         # the actions that fail also declare a parameter the runtime injects by name (llm, config, events, state, ...)
         spec["sig"] = rng.choice(rc.rails.SIGNATURES)
+    api = "nocache" if (ver == "v1" and rng.random() < 0.25) else "messages"
     vin = []
     for i in range(k):
         opts = ["ok", "ok", "rewrite"] if (ver == "v1" and spec["in_shapes"][i] != "allowed") else ["ok"]
@@ -69,7 +70,7 @@ def gen_conv(rng, ver, tier):
             V.append(["in", t, i, vin[i]])
         for i in range(m):
             V.append(["out", t, i, vout[i]])
-    return {"spec": spec, "turns": turns, "kinds": ["llm"] * turns, "V": V, "cid": "f%d" % rng.randint(0, 10**6), "fault": None}
+    return {"spec": spec, "turns": turns, "kinds": ["llm"] * turns, "V": V, "cid": "f%d" % rng.randint(0, 10**6), "fault": None, "api": api}
 
 
 def cases(tier, seed):
@@ -104,6 +105,8 @@ def cases(tier, seed):
 
 def run_case(case):
     r = run_case_for(TAG, case, reuse=12)
+    r["api"] = case.get("api")
+    r["fault_turn_has_history"] = bool(r.get("verdict") == "violated" and ((r.get("witness") or {}).get("turn") or 0) >= 1)
     fr = r.get("fault_rail")
     if fr and case["spec"].get("ver") == "v2" and fr[0] in ("in", "out") and fr[1] is not None:
         pol = case["spec"].get("pol_in" if fr[0] == "in" else "pol_out") or []
@@ -126,6 +129,11 @@ def run_case(case):
 
 def classify(r):
     w = r.get("what")
+    if r.get("ver") == "v1" and r.get("api") == "nocache" and r.get("fault_turn_has_history") and w in (
+            "unchecked-llm-text-returned-after-in-rail-fault", "unchecked-llm-text-returned-after-out-rail-fault", "llm-called-after-input-rail-fault", "reply-neither-refusal-nor-internal-error"):
+        # structural: the conversation is served without the events cache (history rebuilt from the messages) and the failing
+        # turn is not the first one
+        return "v1-rebuilt-history-resumes-dialog-after-fault"
     if r.get("ver") == "v2" and r.get("fault_on_blocked_polarity_rail") and w in ("unchecked-llm-text-returned-after-in-rail-fault", "unchecked-llm-text-returned-after-out-rail-fault", "llm-called-after-input-rail-fault"):
         # structural: the call that failed belongs to a rail whose action answers "is it bad?"
         return "v2-failed-action-reads-as-not-bad"
